@@ -419,6 +419,27 @@ def check_int_compare(rule, kind, root=None):
                     rule.bad("%s|%s|%s" % (kind, name, x.mnem), "%s %s: `%r` compares float data as integers (the interpreter compares as f32: -0.0 == 0.0, NaN != NaN)" % (kind, name, x), "%s:%d" % (p, x.ln))
                 else:
                     rule.ok("%s %s: `%r` is the all-ones idiom" % (kind, name, x))
+        # the same mistake through a general register: the bits of a tape value moved to a GPR and tested for zero
+        # (`vmovd eax, x; test eax, eax`) - true for +0.0 only.  (rand / mix compare two bit patterns with each
+        # other, which is what they mean.)
+        if name in ("build_rand", "build_mix"):
+            continue
+        holds = {}
+        for x in stream(b, builders):
+            if x.label is not None:
+                continue
+            if x.mnem in ("vmovd", "movd", "vmovq", "movq") and len(x.ops) == 2 and x.ops[0].kind == "gpr" and x.ops[1].kind == "vec" and x.ops[1].name.startswith("T:"):
+                holds[x.ops[0].name] = x.ops[1].name
+                continue
+            if x.mnem in ("test", "cmp") and len(x.ops) == 2 and x.ops[0].kind == "gpr" and x.ops[0].name in holds:
+                zero_test = (x.ops[1].kind == "gpr" and x.ops[1].name == x.ops[0].name and x.mnem == "test") or (x.ops[1].kind == "imm" and x.ops[1].text.replace(" ", "") in ("0", "0i8", "0i32", "0x0"))
+                if zero_test:
+                    n += 1
+                    rule.bad("%s|%s|gpr-zero-test" % (kind, name), "%s %s: `%r` tests the bit pattern of `%s` for zero; the interpreter tests `== 0.0`, which -0.0 also satisfies" % (kind, name, x, holds[x.ops[0].name][2:]), "%s:%d" % (p, x.ln))
+            e_ = M.effect(x)
+            for o in e_.writes:
+                if o.kind == "gpr" and o.name in holds and x.mnem not in ("test", "cmp"):
+                    holds.pop(o.name, None)
     return n
 
 
